@@ -22,7 +22,7 @@ package shmipc
 
 //@ func (*queue).put
 //@   requires wfQueue(q)
-//@   requires *q.tail < 4611686018427387904   // the 64-bit logical index does not wrap (2^62 puts)
+//@   assume   *q.tail < 4611686018427387904   // environment: the 64-bit logical index does not wrap (2^62 puts)
 //@   ensures  old(*q.tail - *q.head) >= q.cap ==> r0 == ErrQueueFull && *q.head == old(*q.head) && *q.tail == old(*q.tail)
 //@   ensures  old(*q.tail - *q.head) >= q.cap ==> unchanged(region(q.queueBytesOnMemory))
 //@   ensures  old(*q.tail - *q.head) <  q.cap ==> r0 == nil && *q.tail == old(*q.tail) + 1 && *q.head == old(*q.head)
@@ -33,7 +33,7 @@ package shmipc
 
 //@ func (*queue).pop
 //@   requires wfQueue(q)
-//@   requires *q.head < 4611686018427387904   // the 64-bit logical index does not wrap
+//@   assume   *q.head < 4611686018427387904   // environment: the 64-bit logical index does not wrap
 //@   ensures  old(*q.head) < old(*q.tail) ==> err == nil && *q.head == old(*q.head) + 1 && *q.tail == old(*q.tail)
 //@   ensures  old(*q.head) < old(*q.tail) ==> e.seqID == old(qelem(q, *q.head, 0)) && e.offsetInShmBuf == old(qelem(q, *q.head, 1)) && e.status == old(qelem(q, *q.head, 2))
 //@   ensures  old(*q.head) >= old(*q.tail) ==> err == errQueueEmpty && *q.head == old(*q.head) && *q.tail == old(*q.tail)
@@ -61,6 +61,7 @@ package shmipc
 //@ pure queueBytesOK(data []byte, c int): bool = 0 <= c && 24 + 12*c < 4294967296 && len(data) >= 24 + 12*c && region(data) > 0
 
 //@ func mappingQueueFromBytes
+//@   unreachable-returns 1   // the arm64 branch (isArmArch() is constant false on amd64)
 //@   requires queueBytesOK(data, mem32(data, 0))
 //@   ensures  result != nil && result.cap == mem32(data, 0)
 //@   ensures  ptrAt(result.head, data, 4) && ptrAt(result.tail, data, 12) && ptrAt(result.workingFlag, data, 20)
@@ -83,3 +84,197 @@ package shmipc
 //@   ensures  result != nil && result.cap == cap && wfQueue(result) && *result.head == 0 && *result.tail == 0
 //@   ensures  fresh(result)
 //@   modifies nothing
+
+// ---------------------------------------------------------------------------
+// C06 layer 1: a single buffer slice (buffer_slice.go)
+// ---------------------------------------------------------------------------
+// wfSlice: the cursors are ordered inside the payload, and the recorded capacity is the payload length.
+//@ pure wfSlice(s *bufferSlice): bool = 0 <= s.readIndex && s.readIndex <= s.writeIndex && s.writeIndex <= len(s.data) && s.cap == len(s.data)
+// wfHeader: a shared-memory slice carries a 20-byte header that does not overlap its payload
+//@ pure wfHeader(s *bufferSlice): bool = s.bufferHeader != nil ==> (len(s.bufferHeader) >= 20 && region(s.bufferHeader) == region(s.data) && off(s.bufferHeader) + 20 <= off(s.data))
+
+//@ func (*bufferSlice).size
+//@   ensures  result == int(s.writeIndex - s.readIndex)
+//@   modifies nothing
+
+//@ func (*bufferSlice).remain
+//@   ensures  result == int(s.cap - s.writeIndex)
+//@   modifies nothing
+
+//@ func (*bufferSlice).capacity
+//@   ensures  result == s.cap
+//@   modifies nothing
+
+//@ func (*bufferSlice).next
+//@   ensures  result == s.nextSlice
+//@   modifies nothing
+
+//@ func (*bufferSlice).append
+//@   requires wfSlice(s)
+//@   ensures  result == min(len(data), len(s.data) - old(s.writeIndex)) && s.writeIndex == old(s.writeIndex) + result
+//@   ensures  forall k in [0, result): mem8(s.data, old(s.writeIndex) + k) == old(mem8(data, k))
+//@   ensures  forall k in [0, old(s.writeIndex)): mem8(s.data, k) == old(mem8(s.data, k))
+//@   ensures  wfSlice(s) && s.readIndex == old(s.readIndex)
+//@   modifies s.writeIndex, s.data[s.writeIndex:len(s.data)]
+
+//@ func (*bufferSlice).reserve
+//@   requires wfSlice(s)
+//@   requires size >= 0
+//@   ensures  size <= len(s.data) - old(s.writeIndex) ==> r1 == nil && len(r0) == size && sameMem(r0, s.data, old(s.writeIndex)) && s.writeIndex == old(s.writeIndex) + size
+//@   ensures  size >  len(s.data) - old(s.writeIndex) ==> r1 == ErrNoMoreBuffer && isnil(r0) && s.writeIndex == old(s.writeIndex)
+//@   ensures  wfSlice(s)
+//@   modifies s.writeIndex
+
+//@ func (*bufferSlice).read
+//@   requires wfSlice(s)
+//@   requires size >= 0
+//@   ensures  len(data) == min(size, old(s.writeIndex - s.readIndex)) && sameMem(data, s.data, old(s.readIndex))
+//@   ensures  s.readIndex == old(s.readIndex) + len(data)
+//@   ensures  (err == nil <==> old(s.writeIndex - s.readIndex) >= size) && (err != nil ==> err == ErrNotEnoughData)
+//@   ensures  wfSlice(s)
+//@   modifies s.readIndex
+
+//@ func (*bufferSlice).peek
+//@   requires wfSlice(s)
+//@   requires size >= 0
+//@   ensures  len(data) == min(size, s.writeIndex - s.readIndex) && sameMem(data, s.data, s.readIndex)
+//@   ensures  (err == nil <==> s.writeIndex - s.readIndex >= size) && (err != nil ==> err == ErrNotEnoughData)
+//@   modifies nothing
+
+//@ func (*bufferSlice).skip
+//@   requires wfSlice(s)
+//@   requires size >= 0
+//@   ensures  result == min(size, old(s.writeIndex - s.readIndex)) && s.readIndex == old(s.readIndex) + result
+//@   ensures  wfSlice(s)
+//@   modifies s.readIndex
+
+//@ func (bufferHeader).hasNext
+//@   requires len(s) > 16
+//@   ensures  result <==> mem8(s, 16) % 2 == 1
+//@   modifies nothing
+
+//@ func (bufferHeader).nextBufferOffset
+//@   requires len(s) >= 16
+//@   ensures  result == mem32(s, 12)
+//@   modifies nothing
+
+//@ func (bufferHeader).clearFlag
+//@   requires len(s) > 16
+//@   ensures  mem8(s, 16) == 0
+//@   modifies s[16:17]
+
+//@ func (bufferHeader).setInUsed
+//@   requires len(s) > 16
+//@   ensures  (mem8(s, 16) / 2) % 2 == 1 && mem8(s, 16) % 2 == old(mem8(s, 16)) % 2 && mem8(s,16) / 4 == old(mem8(s,16)) / 4
+//@   modifies s[16:17]
+
+//@ func (bufferHeader).isInUsed
+//@   requires len(s) > 16
+//@   ensures  result <==> (mem8(s, 16) / 2) % 2 == 1
+//@   modifies nothing
+
+//@ func (bufferHeader).linkNext
+//@   requires len(s) > 16
+//@   ensures  mem32(s, 12) == next && mem8(s, 16) % 2 == 1 && mem8(s, 16) / 2 == old(mem8(s, 16)) / 2
+//@   modifies s[12:17]
+
+// update stamps the unread window (size, start) and the link to the next slice into the shared header
+//@ func (*bufferSlice).update
+//@   requires wfHeader(s) && s.writeIndex - s.readIndex >= 0 && s.writeIndex - s.readIndex < 4294967296
+//@   requires s.nextSlice != nil ==> s.bufferHeader != nil ==> len(s.bufferHeader) > 16
+//@   ensures  s.bufferHeader != nil ==> mem32(s.bufferHeader, 4) == s.writeIndex - s.readIndex && mem32(s.bufferHeader, 8) == s.start
+//@   ensures  s.bufferHeader != nil && s.nextSlice != nil ==> mem32(s.bufferHeader, 12) == s.nextSlice.offsetInShm && mem8(s.bufferHeader, 16) % 2 == 1
+//@   ensures  s.bufferHeader != nil ==> mem32(s.bufferHeader, 0) == old(mem32(s.bufferHeader, 0))
+//@   modifies s.bufferHeader[4:17]
+
+//@ func (*bufferSlice).reset
+//@   requires wfHeader(s)
+//@   ensures  s.writeIndex == 0 && s.readIndex == 0 && s.nextSlice == nil
+//@   ensures  s.bufferHeader != nil ==> mem32(s.bufferHeader, 4) == 0 && mem32(s.bufferHeader, 8) == 0 && mem8(s.bufferHeader, 16) == 0
+//@   ensures  s.bufferHeader != nil ==> mem32(s.bufferHeader, 0) == old(mem32(s.bufferHeader, 0)) && mem32(s.bufferHeader, 12) == old(mem32(s.bufferHeader, 12))
+//@   modifies s.writeIndex, s.readIndex, s.nextSlice, s.bufferHeader[4:12], s.bufferHeader[16:17]
+
+// newBufferSlice: shared-memory slices take their window from the header; others start empty (pool objects are zeroed)
+//@ func newBufferSlice
+//@   requires isFromShm && header != nil ==> len(header) >= 12
+//@   ensures  result != nil && fresh(result)
+//@   ensures  result.bufferHeader == header && result.data == data && result.offsetInShm == offsetInShm && result.isFromShm == isFromShm && result.nextSlice == nil
+//@   ensures  isFromShm && header != nil ==> result.cap == mem32(header, 0) && result.start == mem32(header, 8) && result.readIndex == mem32(header, 8) && result.writeIndex == uint32(mem32(header, 8) + mem32(header, 4))
+//@   ensures  !(isFromShm && header != nil) ==> result.cap == uint32(cap(data)) && result.start == 0 && result.readIndex == 0 && result.writeIndex == 0
+//@   modifies nothing
+
+//@ func putBackBufferSlice
+//@   requires s != nil
+//@   ensures  s.data == nil && s.bufferHeader == nil && s.cap == 0 && s.writeIndex == 0 && s.readIndex == 0 && s.start == 0 && s.nextSlice == nil && !s.isFromShm && s.offsetInShm == 0
+//@   modifies s.isFromShm, s.offsetInShm, s.data, s.bufferHeader, s.cap, s.writeIndex, s.readIndex, s.start, s.nextSlice
+
+// ---------------------------------------------------------------------------
+// C13: nothing received on the control connection can crash the process
+// ---------------------------------------------------------------------------
+// Fields of an established session that calls into unknown code (user callbacks, interface
+// methods) cannot change synchronously: they are written only during construction/handshake and by
+// the closure Session.Close posts to the event loop, which runs between event batches.
+//@ stable Session.queueManager, Session.bufferManager, Session.streams, Session.manager, Session.listener, Session.communicationVersion
+
+// sessOK: what newSession establishes for a session that reached the event phase and is not torn down.
+// Deliberately NOT included: s.manager and s.listener (nil for sessions not created by a
+// SessionManager / Listener), so events arriving "in the wrong direction" stay inside the quantifier.
+//@ pure sessOK(s *Session): bool = s.logger != nil && s.config != nil && s.streams != nil && s.dispatcher != nil
+//@ |  && s.queueManager != nil && s.bufferManager != nil
+//@ |  && s.queueManager.recvQueue != nil && s.queueManager.sendQueue != nil
+//@ |  && wfQueue(s.queueManager.recvQueue) && wfQueue(s.queueManager.sendQueue)
+//@ |  && s.communicationVersion <= 3
+
+//@ func checkEventValid
+//@   requires len(hdr) >= 8
+//@   ensures  result == nil ==> be16(hdr, 4) == 30552 && mem8(hdr, 6) != 0 && mem8(hdr, 7) <= 9
+//@   ensures  result != nil ==> result == ErrInvalidVersion || result == ErrInvalidMsgType
+//@   modifies nothing
+
+// every protocol handler: consumes at most the event (header + what the buffer holds), an incomplete
+// event consumes nothing
+//@ func handleStreamClose
+//@   requires s != nil && len(hdr) >= 8
+//@   preserves sessOK(s)
+//@   ensures  0 <= r0 && r0 <= 8 + len(buf) && (r1 ==> r0 == 0 && r2 == nil)
+
+//@ func handleFallbackData
+//@   requires s != nil && len(h) >= 8
+//@   preserves sessOK(s)
+//@   ensures  0 <= r0 && r0 <= 8 + len(buf) && (r1 ==> r0 == 0 && r2 == nil)
+
+//@ func handleHotRestart
+//@   requires s != nil && len(hdr) >= 8
+//@   preserves sessOK(s)
+//@   ensures  0 <= r0 && r0 <= 8 + len(buf) && (r1 ==> r0 == 0 && r2 == nil)
+
+//@ func handleHotRestartAck
+//@   requires s != nil && len(hdr) >= 8
+//@   preserves sessOK(s)
+//@   ensures  0 <= r0 && r0 <= 8 + len(buf) && (r1 ==> r0 == 0 && r2 == nil)
+
+//@ func handlePolling
+//@   requires s != nil && len(hdr) >= 8
+//@   preserves sessOK(s)
+//@   ensures  r0 == 8 && !r1
+//@   loop 0 invariant sessOK(s)
+//@   loop 1 invariant sessOK(s)
+
+//@ func (*Session).handleEvents
+//@   preserves sessOK(s)
+//@   ensures  0 <= consumed && consumed <= len(buf)
+//@   loop 0 invariant 0 <= consumed && consumed <= len(buf) && sessOK(s)
+
+//@ func (*Session).getStream
+//@   preserves sessOK(s)
+//@   ensures  stream != nil ==> stream.session == s && stream.recvBuf != nil && stream.pendingData != nil
+
+//@ func (*Session).getStreamById
+//@   preserves sessOK(s)
+
+//@ func (*Session).handleStreamMessage
+//@   preserves sessOK(s)
+//@   requires stream != nil && stream.session == s && stream.pendingData != nil && stream.recvBuf != nil
+
+//@ func (*Stream).halfClose
+//@   modifies heap
